@@ -43,8 +43,70 @@ def group_of(name_full):
 
 # ------------------------------------------------------------------------------------ worker
 
+_TREE_HASH = None
+
+
+def tree_hash():
+    """Hash of everything a theorem's verdict depends on: the repository sources under verification, the engine,
+    the contracts, the specs and the known-findings file."""
+    global _TREE_HASH
+    if _TREE_HASH is None:
+        import hashlib
+        h = hashlib.sha256()
+        roots = [os.path.join(os.environ.get("VERIF_REPO", "/repo"), "src"), os.path.join(VERIF, "pyvc"),
+                 os.path.join(VERIF, "contracts"), os.path.join(VERIF, "spec")]
+        for root in roots:
+            for dp, dn, fn in sorted(os.walk(root)):
+                dn.sort()
+                for f in sorted(fn):
+                    if f.endswith((".py", ".txt", ".json", ".toml")):
+                        fp = os.path.join(dp, f)
+                        h.update(os.path.relpath(fp, root).encode())
+                        with open(fp, "rb") as fh:
+                            h.update(fh.read())
+        for f in ("known_findings.json",):
+            fp = os.path.join(VERIF, f)
+            if os.path.exists(fp):
+                h.update(open(fp, "rb").read())
+        _TREE_HASH = h.hexdigest()
+    return _TREE_HASH
+
+
+def cache_path(tname, tier, seed):
+    import hashlib
+    d = os.path.join(VERIF, ".cache")
+    k = hashlib.sha256(f"{tname}|{tier}|{seed}|{tree_hash()}".encode()).hexdigest()[:32]
+    return os.path.join(d, k + ".json")
+
+
 def work_theorem(args):
-    """Runs in a forked worker: generate + discharge one theorem; returns plain data."""
+    """Runs in a forked worker; results of a theorem are reused when nothing it depends on has changed (same repository
+    sources, engine, contracts, specs, tier and seed - see tree_hash) so that a dependency shared by several
+    properties is verified once per tree, not once per property."""
+    tname, tier, outdir, kf_classes, seed = args
+    cp = cache_path(tname, tier, seed)
+    if not os.environ.get("VERIF_NO_CACHE") and not kf_classes and os.path.exists(cp):
+        try:
+            with open(cp) as fh:
+                out = json.load(fh)
+            out["cached"] = True
+            return out
+        except Exception:  # noqa
+            pass
+    out = _work_theorem(args)
+    if not kf_classes and not out.get("error"):
+        try:
+            os.makedirs(os.path.dirname(cp), exist_ok=True)
+            tmp = cp + f".{os.getpid()}.tmp"
+            with open(tmp, "w") as fh:
+                json.dump(out, fh, default=str)
+            os.replace(tmp, cp)
+        except Exception:  # noqa
+            pass
+    return out
+
+
+def _work_theorem(args):
     tname, tier, outdir, kf_classes, seed = args
     from pyvc import verify, solve, replay, specs
     from pyvc.contracts import REGISTRY
@@ -465,7 +527,8 @@ def run_property(prop, tier, seed, only=None, keep=False, jobs=None, replays_dir
             "trusted_base": trusted_base,
             "theorems": [{"name": t.name, "body": t.body, "requires": t.requires, "paths": res.get("paths"),
                           "obligations": len(res.get("obligations", [])), "gen_s": round(res.get("gen_s", 0), 2),
-                          "unsupported": res.get("unsupported"), "note": t.note}
+                          "unsupported": res.get("unsupported"), "note": t.note,
+                          "reused_result_of_identical_tree": bool(res.get("cached"))}
                          for t, res in zip(thms, results)],
             "obligation_groups": groups,
             "functions_under_contract": fuc,
@@ -475,6 +538,8 @@ def run_property(prop, tier, seed, only=None, keep=False, jobs=None, replays_dir
             "inlined_callees": sorted(inlined - set(fuc)),
             "natively_evaluated": sorted(natives),
             "builtin_axioms_used": {a: TRUSTED.get(a, "") for a in sorted(trusted)},
+            "theorems_reused_from_cache": sum(1 for res in results if res.get("cached")),
+            "cache_rule": "a theorem's result is reused only when the sha256 over $VERIF_REPO/src, pyvc/, contracts/, spec/, known_findings.json, tier and seed is identical (pyvc.driver.tree_hash); VERIF_NO_CACHE=1 disables reuse",
             "vacuity": {"witnesses_run_natively": wit_run, "witnesses_ok": wit_ok,
                         "theorems_with_zero_obligations": 0 if not errors else len([e for e in errors if "zero obligations" in e])},
             "samples": samples or [{"obligation": g} for g in list(groups)[:3]],
